@@ -11,6 +11,13 @@ CHECKS = {
          "in any archive, and that slots are shared exactly by intervals congruent mod N*S. Partial: the composition over whole histories is not one theorem. "
          "Tied to the code by a differential run over histories with raw-slot, file-byte and fetch comparison after every step.",
          "Lean 4 theorems (refinement of the two-branch wrap read to modular indexing; byte-level write frame) + correspondence check", "§5 C01"),
+ "C02": ("The propagation step is characterised by Lean theorems for all inputs: which finer values count as known, when the coarser slot is stored "
+         "(non-empty known list and fraction test), what is stored (the configured aggregate, six methods stated outright), where (the slot of t only), and "
+         "that a skipped slot leaves the file untouched and stops the chain. Partial: composition over whole chains; full no-panic theorem.",
+         "Lean 4 theorems (case analysis of the propagation step over the ring/slot refinement) + raw-slot correspondence after every write", "§5 C02"),
+ "C03": ("Acceptance, routing and the batch partition are Lean theorems over lists for all batches: the batch update is proved equal to per-archive writes of "
+         "exactly the right sub-lists of the stably sorted batch; stable sort uniqueness gives order independence; last point per slot wins.",
+         "Lean 4 theorems (list induction: stable insertion sort, span of a sorted list, filter algebra) + correspondence check on shuffled batches", "§5 C03"),
  "C04": ("The fetch shape is computed by a function of (archive list, id, window, clock) only; failure, absence and the closed form of bounds/step/length "
          "are Lean theorems (closed form inside the zone of 32-bit arithmetic), and the executed fetch is proved to have the planned shape whether or not "
          "the archive was ever written. Tied to the code by differential fetches over boundary windows on empty and non-empty archives.",
